@@ -92,7 +92,7 @@ ADDENDA = {
  "C16": "As built: arm pool includes keyframe-less timelines and members of one bracketed list with identical timing that share a property. The pool also has a keyword and a percent keyframe at the same position (0% {..} from {..}; to {..} 100% {..}).",
  "C17": "As built: attribute noise (doc comments, #[allow], #[cfg]) around markers, module-qualified remote paths, 48 wide structs (8..33 fields), and in every compiled shape a stepped animation of 80 keyframes and setter-override checks. Every compiled shape also evaluates a negative-delay timeline at negative times. A field first keyed at 50% with its own easing must have a lead-in eased by the default easing. keyframe_from is also fed a source holding zeros.",
  "C18": "As built: 16 timeline configurations (12 plain, 4 MergedTimelines), a non-dyadic pass, and a presence pass in which the target component is detached / attached between frames. Four more non-dyadic timings whose delay + total rounds in f32. Every world also holds enabled animators without a timeline (with and without a target) before, inside and after each batch. A seek pass applies the documented reset() + timeline_position assignment.",
- "C19": "As built: both system orders (probed per process), initial_key / reset_after, a disabled pass (animator disabled for a window of frames) and a mirror pass (the other animator on the entity changes state in every frame; C governed / Q foreign and Q governed / C foreign). A hot-swap pass replaces the governed animator's timeline (Animator::set_timeline) before frame 1, 2 or 3.",
+ "C19": "As built: both system orders (probed per process), initial_key / reset_after, a disabled pass (animator disabled for a window of frames) and a mirror pass (the other animator on the entity changes state in every frame; C governed / Q foreign and Q governed / C foreign). A hot-swap pass replaces the governed animator's timeline (Animator::set_timeline) before frame 1, 2 or 3. Both relative orders of chain_animations and select_animation are explored in every run (worker processes, re-executed until each order has turned up); finding F10 (a foreign Ended moves the key while the governed animator rests in Ended) is listed in known_findings.json.",
  "C20": "As built: 13 keyframe sets incl. extreme finite values, 257/513/300 keyframes and keyframes a subnormal distance apart; cycles up to f32::MAX; the empty merged timeline. Times include -0.0.",
 }
 
